@@ -446,3 +446,34 @@ def granular_leg(ck, rnd, tier):
         else:
             ck.cov['traces_validated_against_impl'] += 1
             ck.nontrivial(('granular', arg, tuple(c['moduli']), c['style']))
+    # a size that does not fit the 32-bit field of the request cannot be sent: that request yields nothing - and costs the other requests
+    # of the same run nothing (what is reported for them is what is reported without it)
+    big = str(1 << 32)
+    cfg = peers.ServerCfg(banner=b'SSH-2.0-Generic_1.0', kexinit={'kex': ['curve25519-sha256', GEX256, GEX1], 'key': ['ssh-ed25519'], 'enc': ['aes128-ctr'],
+                                                                'mac': ['hmac-sha2-256'], 'comp': ['none']},
+                          hostkeys={'ssh-ed25519': peers.ed25519_blob()}, gex={'style': 'roundup', 'moduli': [2048, 4096]})
+    pairs = [('2048,4096', '2048,%s,4096' % big), ('4096', '%s,4096' % big), ('2048:3072:4096,1024:2048:4096', '2048:3072:4096,2048:3072:%s,1024:2048:4096' % big)]
+    runs = runner.run_many([{'argv': ['-j', '-g', a, audit.HOST], 'servers': {(audit.HOST, 22): cfg}} for pr in pairs for a in pr])
+    for k, (plain, withbig) in enumerate(pairs):
+        r0, r1 = runs[2 * k], runs[2 * k + 1]
+        ck.evaluated()
+        replay = {'argv': ['-g', withbig], 'exit': r1.get('exit'), 'stdout': (r1.get('stdout') or '')[-1500:], 'without_the_oversized_request': (r0.get('stdout') or '')[-800:]}
+        if r0.get('harness_error') or r0.get('hang') or r1.get('harness_error'):
+            raise common.Machinery('granular run failed')
+        if r1.get('hang'):
+            ck.violation('granular-oversized-request-run-never-ends', '-g %s never ends' % withbig, replay)
+            continue
+        bad = [e_ for e_ in r1['events'] if e_.get('ev') in ('framing_violation', 'protocol_violation', 'srv_decode_error')]
+        try:
+            s0 = json.loads(r0['stdout']).get('dh-gex-modulus-size', {})
+            s1 = json.loads(r1['stdout']).get('dh-gex-modulus-size', {}) if r1['stdout'].strip() else {}
+        except ValueError:
+            ck.violation('granular-json-unparsable', '-g %s: output is not JSON' % withbig, replay)
+            continue
+        if bad:
+            ck.violation('granular-oversized-request-spoils-next-connection', '-g %s: %s' % (withbig, bad[0].get('what') or bad[0]), dict(replay, events=bad[:3]))
+        elif s1 != s0:
+            ck.violation('granular-oversized-request-costs-other-requests', '-g %s reports %r; without the request that cannot be sent: %r' % (withbig, s1, s0), replay)
+        else:
+            ck.cov['traces_validated_against_impl'] += 1
+            ck.nontrivial(('granular-oversized', withbig))
